@@ -50,6 +50,7 @@ def newcomer(r, c):
                           (5, {'resid': r + 1, 'charge_group': c + 2, 'tag': 'new5'})])
     other.add_edge(0, 5, kind='x')
     other.add_interaction('bonds', (0, 5), ['p'])
+    other.add_interaction('bonds', (0, 5), ['p2'])        # second term on the same atoms, same version: both must survive
     other.add_interaction('angles', (5, 0, 5), ['q'], {'version': 2})
     return other
 
